@@ -21,7 +21,7 @@ import (
 func TestMain(m *testing.M) { ev.Main(m, "C03") }
 
 type Step struct {
-	Op   string `json:"op"`   // send | ack | early | late | end
+	Op   string `json:"op"`   // send | ack | early | near | late | end
 	S    int    `json:"s"`    // subscriber index (ack, end)
 	K    int    `json:"k"`    // ack: index into that subscriber's in-flight list (mod len); -1 = an identifier that is not in flight
 	Type string `json:"type"` // ack: puback pubrec pubrel pubcomp
@@ -223,6 +223,57 @@ func run(c Case) (f *failure, nontrivial bool) {
 				}
 				retransmissions += len(got)
 			}
+		case "near":
+			// a sweep 200 ms before the earliest pending deadline: "to the second" allows either
+			// outcome for each open exchange, but never more than one copy, never a foreign
+			// packet, and whatever is not re-sent now must be re-sent by the next late sweep
+			var earliest time.Time
+			for i := range subs {
+				if ended[i] {
+					continue
+				}
+				sid := n.Local.SessionOf(subs[i].Conn)
+				for _, fl := range inflight[i] {
+					if d, ok := n.Acks.Deadline(sid, fl.id); ok && (earliest.IsZero() || d.Before(earliest)) {
+						earliest = d
+					}
+				}
+			}
+			if earliest.IsZero() {
+				continue
+			}
+			n.Acks.Sweep(earliest.Add(-200 * time.Millisecond))
+			if f := settle(); f != nil {
+				return f, nontrivial
+			}
+			for i := range subs {
+				got := fresh(i)
+				if ended[i] {
+					if len(got) != 0 {
+						return &failure{fmt.Sprintf("step %d: sweep re-sent %v to ended sub%d", si, got, i), false}, nontrivial
+					}
+					continue
+				}
+				allowed := map[string]int{}
+				for _, fl := range inflight[i] {
+					if fl.phase == "pubcomp" {
+						allowed[fmt.Sprintf("PUBREL id%d", fl.id)]++
+					} else {
+						allowed[fmt.Sprintf("PUBLISH id%d q%d t/x=%s", fl.id, fl.qos, fl.payload)]++
+					}
+				}
+				for _, p := range got {
+					k := fmt.Sprintf("%s id%d q%d %s=%s", sim.TypeName(p.Type), p.ID, p.QoS, p.Topic, p.Payload)
+					if p.Type == sim.PUBREL {
+						k = fmt.Sprintf("PUBREL id%d", p.ID)
+					}
+					if allowed[k] == 0 {
+						return &failure{fmt.Sprintf("step %d (sweep just before the deadlines): sub%d was sent %s, which is not a single copy of an open exchange", si, i, k), false}, nontrivial
+					}
+					allowed[k]--
+					retransmissions++
+				}
+			}
 		case "end":
 			if st.S >= len(subs) || ended[st.S] {
 				continue
@@ -330,10 +381,14 @@ func TestRandom(t *testing.T) {
 				}
 				c.Steps = append(c.Steps, Step{Op: "ack", S: rapid.IntRange(0, ns-1).Draw(t, "s"), K: k,
 					Type: rapid.SampledFrom([]string{"puback", "puback", "pubrec", "pubrec", "pubcomp", "pubcomp", "pubrel"}).Draw(t, "type")})
-			case x < 17:
+			case x < 15:
 				c.Steps = append(c.Steps, Step{Op: "late"})
-			case x < 19:
+			case x < 17:
+				c.Steps = append(c.Steps, Step{Op: "near"})
+			case x < 18:
 				c.Steps = append(c.Steps, Step{Op: "early"})
+			case x < 19:
+				c.Steps = append(c.Steps, Step{Op: "near"})
 			default:
 				c.Steps = append(c.Steps, Step{Op: "end", S: rapid.IntRange(0, ns-1).Draw(t, "s")})
 			}
